@@ -135,7 +135,7 @@ CLAIMED = {
         "and trunc_F0_Z0_exact (every F0/Z0 acquisition with A <= 2m+1 is identical); on the n-D shift model (Model/ShiftND.v, tied by the exact C04 correspondence) "
         "nd_cap (with a cap m every wavenumber kept by the n-D shift, pruned or not, has no component beyond m), prune_keeps_centre (the zero state is never removed), prune_removes_only_negligible (a removed state is below the tolerance in every batch entry), "
         "prune_nothing_negligible_exact (pruning is exact when nothing is negligible) and merge_position0_exact (merging adds amplitudes exactly: the F+ and Z sums are unchanged). "
-        "Over Coquelicot's complex numbers: prune_value_bound_step_partial (ONE pruning step changes a value sum_j chi_j F_j, |chi_j| <= 1, by at most eps per removed state) and prune_tol0_exact. "
+        "Over Coquelicot's complex numbers: prune_value_bound_step_partial (ONE pruning step changes a value sum_j chi_j F_j, |chi_j| <= 1, by at most eps per removed state), prune_step_bound_model_partial (the same on the mask computed by the shiftnd model itself) and prune_tol0_exact. "
         "The n-D truncation horizon, the propagation of the pruning bound through a whole program (2*eps*cumulative count), the partials-pruner bound and the cell-size displacement bound of "
         "merging are NOT theorems: they are run as oracles on the implementation (truncated vs untruncated incl. caps lowered mid-sequence and "
         "oblique n-D out-and-back echoes with the cap reached exactly, pruned vs unpruned against 2*eps*cumulative state count, Jacobians with a counting "
